@@ -48,6 +48,7 @@ type c11Prog struct {
 	RootDir  string
 	NameOf   map[int]string // table number -> file name
 	Fault    bool           // a system call is made to fail (strace inject=...:error=...)
+	Mode     string         // "" program on the command line; "source" --source FILE; "preload" ./csvqrc + a trivial command line
 }
 
 type c11Obs struct {
@@ -370,6 +371,44 @@ func c11Corpus(id int) []*c11Prog {
 	return out
 }
 
+// c11CaseCorpus: table names that differ only in case.  The FileContainer (and the view cache) key
+// handlers by the upper-cased path, so on a case-sensitive file system a second file collides with a
+// handler that is held: the new handler must be released completely (closeIsolatedHandler), the held
+// one must stay.  A.csv, b.csv, t3.csv exist; a.csv, B.csv do not.
+func c11CaseCorpus(id int) []*c11Prog {
+	tables := map[string]int{"A.csv": 1, "b.csv": 2, "t3.csv": 3, "a.csv": 13, "B.csv": 14}
+	nameOf := map[int]string{1: "A.csv", 2: "b.csv", 3: "t3.csv", 13: "a.csv", 14: "B.csv"}
+	init := map[string]string{"A.csv": "k,v\n1,a\n2,b\n", "b.csv": "k,v\n1,c\n", "t3.csv": "k,v\n1,d\n2,e\n"}
+	q := func(t int) string { return "`" + nameOf[t] + "`" }
+	up := func(t int) c11Stmt { return c11Stmt{"UPDATE " + q(t) + " SET v = 'x';", "update", t} }
+	no := func(t int) c11Stmt { return c11Stmt{"DELETE FROM " + q(t) + " WHERE k = 999;", "noop", t} }
+	fu := func(t int) c11Stmt { return c11Stmt{"SELECT * FROM " + q(t) + " FOR UPDATE;", "noop", t} }
+	rd := func(t int) c11Stmt { return c11Stmt{"SELECT * FROM " + q(t) + ";", "read", t} }
+	cr := func(t int) c11Stmt { return c11Stmt{"CREATE TABLE " + q(t) + " (x, y);", "create", t} }
+	in := func(t int) c11Stmt { return c11Stmt{"INSERT INTO " + q(t) + " VALUES (1, 'n');", "update", t} }
+	co := c11Stmt{"COMMIT;", "commit", 0}
+	lists := [][]c11Stmt{
+		{up(1), cr(13)},
+		{fu(1), cr(13), up(3)},
+		{no(2), up(3), cr(14)},
+		{rd(3), up(3), fu(2), cr(14)},
+		{cr(14), cr(2)},                 // b.csv exists: refused before anything is made
+		{up(1), co, cr(13), in(13)},     // after COMMIT nothing is held: a.csv is created
+		{cr(13), in(13), co, no(1)},     // a.csv committed, then A.csv locked
+		{up(3), cr(14), in(14), cr(13)}, // nothing collides: A.csv is not held
+		{up(1), up(2), cr(14)},
+	}
+	var out []*c11Prog
+	for i, l := range lists {
+		p := &c11Prog{Id: id + i, Scenario: "case", Stmts: l, Tables: tables, NameOf: nameOf, Init: init, Foreign: map[string]string{}, LB: []byte("\n")}
+		if i%2 == 1 {
+			p.Args = []string{"-q"}
+		}
+		out = append(out, p)
+	}
+	return out
+}
+
 func (p *c11Prog) text() string {
 	var s []string
 	for _, st := range p.Stmts {
@@ -382,8 +421,24 @@ func (p *c11Prog) text() string {
 	return t
 }
 
+// c11SetMode: how the program reaches csvq.  A preload file runs before the command line options are
+// applied, so such a program runs with the defaults (and must not contain EXIT, which only ends the
+// preload file)
+func c11SetMode(p *c11Prog, mode string) {
+	p.Mode = mode
+	if mode == "preload" {
+		for _, st := range p.Stmts {
+			if st.Kind == "exit" {
+				p.Mode = ""
+				return
+			}
+		}
+		p.Args, p.LB, p.OutFile = nil, []byte("\n"), false
+	}
+}
+
 func (p *c11Prog) names(dir string) *repoNames {
-	n := &repoNames{Dir: dir, Tables: p.Tables, Foreign: map[string]int{}}
+	n := &repoNames{Dir: dir, Tables: p.Tables, Foreign: map[string]int{}, Ignore: map[string]bool{"csvqrc": true}}
 	for f, k := range p.Foreign {
 		if k == "rlock" {
 			n.Foreign[f] = 1
@@ -420,7 +475,26 @@ func (p *c11Prog) run(tag string, inject string) c11Obs {
 	if p.OutFile {
 		args = append(args, "-o", outPath)
 	}
-	args = append(args, p.text())
+	cwd := home
+	switch p.Mode {
+	case "source":
+		src := filepath.Join(p.RootDir, tag+".sql")
+		if err := os.WriteFile(src, []byte(p.text()), 0644); err != nil {
+			panic(err)
+		}
+		defer os.Remove(src)
+		args = append(args, "-s", src)
+	case "preload":
+		// ./csvqrc is executed before the command line options are applied (no -r yet): the process
+		// runs inside the repository; the command line itself is trivial
+		if err := os.WriteFile(filepath.Join(dir, "csvqrc"), []byte(p.text()), 0644); err != nil {
+			panic(err)
+		}
+		cwd = dir
+		args = []string{"SELECT 1;"}
+	default:
+		args = append(args, p.text())
+	}
 	traceFile := filepath.Join(p.RootDir, tag+".strace")
 	argv := []string{"strace", "-f", "-o", traceFile, "-s", "200000", "-xx", "-e", "trace=" + c11TraceSet}
 	if inject != "" {
@@ -428,7 +502,7 @@ func (p *c11Prog) run(tag string, inject string) c11Obs {
 	}
 	argv = append(argv, csvqBinary())
 	argv = append(argv, args...)
-	res := runCmdNoStdin(home, argv, 40*time.Second, "HOME="+home)
+	res := runCmdNoStdin(cwd, argv, 40*time.Second, "HOME="+home)
 	b, _ := os.ReadFile(traceFile)
 	calls := parseStrace(string(b))
 	tr := traceToOps(calls, n)
@@ -582,7 +656,7 @@ func (p *c11Prog) translate(o c11Obs) c11Model {
 	}
 	var acts []string
 	var pending []pend // actions whose body is known only at the next commit
-	var createdNow []int
+	var createdNow, failedCreate []int
 	ended := false
 	setBodies := func(s c11Seg) {
 		for _, pd := range pending {
@@ -670,6 +744,22 @@ func (p *c11Prog) translate(o c11Obs) c11Model {
 				ended = true
 				break
 			}
+			if !exists[t] && !blockedCreate[t] {
+				// a held table whose path differs only in case: the lock file and the table file are made,
+				// FileContainer.Add refuses ("already opened"), the new handler is released again
+				collides := false
+				for h := range held {
+					if h != t && strings.EqualFold(p.nameOf(h), p.nameOf(t)) {
+						collides = true
+					}
+				}
+				if collides {
+					acts = append(acts, fmt.Sprintf("ACreate %d%%N ([], []) (Some 2%%nat)", t))
+					ended = true
+					failedCreate = append(failedCreate, t)
+					break
+				}
+			}
 			acts = append(acts, fmt.Sprintf("ACreate %d%%N BODY %s", t, f))
 			pending = append(pending, pend{len(acts) - 1, t, true})
 			if exists[t] || blockedCreate[t] {
@@ -717,7 +807,7 @@ func (p *c11Prog) translate(o c11Obs) c11Model {
 	if p.Signal != "" || p.Fault {
 		m.AllNone = createdNow
 	} else if ended {
-		m.Absent = createdNow
+		m.Absent = append(createdNow, failedCreate...)
 	}
 	return m
 }
@@ -733,7 +823,7 @@ func (p *c11Prog) coqCase(id int, o c11Obs, m c11Model, readonly bool) string {
 func runC11(seed int64, tier string, out string) {
 	r := rand.New(rand.NewSource(seed))
 	meta := newMeta("C11", seed)
-	meta.Rule = "programs generated from one seeded PRNG over t1..t3 (existing), n1/n2 (created), nosuch: SELECTs, effective and no-op UPDATE/INSERT/DELETE, CREATE TABLE (+INSERT), COMMIT, ROLLBACK; endings: success, syntax error, missing table (read/update), division by zero inside SELECT / UPDATE / CREATE TABLE AS SELECT, duplicate CREATE, EXIT, wait timeout (-w 0.4) against a hand-made .lock / .rlock / .temp of a competing holder, and SIGINT/SIGTERM/SIGQUIT injected by strace at the N-th call of a system call class (a spread of N in the quick tier, every N in the thorough tier); read-only programs additionally compare bytes and mtimes of every data file. Scenario corpus: ten fixed programs with COMMIT / ROLLBACK in the middle (what is held, released and re-acquired around them). Scenario longname: tables whose file names have 228..255 bytes, so that .NAME.<12>.rlock (from 236) or .NAME.lock/.NAME.temp (from 250) do not fit into a directory entry, read / updated / created with -w 0.3. Scenario fault: for a read-only program and several updating/creating/committing programs every repository-related openat and every write, ftruncate, renameat and flock is made to fail once (when=N) and from then on (when=N+) with ENOSPC/EACCES/EIO/ENAMETOOLONG by strace; runs with a failing renameat/flock are judged by model-free checks only (no control file left, tables complete old or new, no internal failure), all others also against the model (failure at any step). Each run of build/csvq is one case; it is non-trivial when the run issued at least one mutating call on the repository; distinct = distinct (program, ending, injection point, observed trace) tuples."
+	meta.Rule = "programs generated from one seeded PRNG over t1..t3 (existing), n1/n2 (created), nosuch: SELECTs, effective and no-op UPDATE/INSERT/DELETE, CREATE TABLE (+INSERT), COMMIT, ROLLBACK; endings: success, syntax error, missing table (read/update), division by zero inside SELECT / UPDATE / CREATE TABLE AS SELECT, duplicate CREATE, EXIT, wait timeout (-w 0.4) against a hand-made .lock / .rlock / .temp of a competing holder, and SIGINT/SIGTERM/SIGQUIT injected by strace at the N-th call of a system call class (a spread of N in the quick tier, every N in the thorough tier); read-only programs additionally compare bytes and mtimes of every data file. Scenario corpus: ten fixed programs with COMMIT / ROLLBACK in the middle (what is held, released and re-acquired around them). Scenario case: nine fixed programs over A.csv / a.csv / b.csv / B.csv (names that differ only in case: a held table and a CREATE TABLE of its twin, also after SELECT ... FOR UPDATE). Delivery: most programs on the command line, every fifth plain program and every third signalled program through --source FILE, as many through a ./csvqrc preload file with the trivial command line 'SELECT 1' (csvq then runs inside the repository). Scenario longname: tables whose file names have 228..255 bytes, so that .NAME.<12>.rlock (from 236) or .NAME.lock/.NAME.temp (from 250) do not fit into a directory entry, read / updated / created with -w 0.3. Scenario fault: for a read-only program and several updating/creating/committing programs every repository-related openat and every write, ftruncate, renameat and flock is made to fail once (when=N) and from then on (when=N+) with ENOSPC/EACCES/EIO/ENAMETOOLONG by strace; runs with a failing renameat/flock are judged by model-free checks only (no control file left, tables complete old or new, no internal failure), all others also against the model (failure at any step). Each run of build/csvq is one case; it is non-trivial when the run issued at least one mutating call on the repository; distinct = distinct (program, ending, injection point, observed trace) tuples."
 	w := &shardWriter{dir: out, prop: "C11", max: 120, meta: meta,
 		header: "From Coq Require Import NArith List.\nRequire Import Csvq.Model.Base Csvq.Model.Fs Csvq.Model.Commit Csvq.Model.Cleanup Csvq.Harness.H11.\nOpen Scope list_scope.\n",
 		footer: func(ls []string) string {
@@ -768,10 +858,16 @@ func runC11(seed int64, tier string, out string) {
 			if s != "timeout" && s != "syntax" && r.Intn(6) == 0 {
 				p.OutFile = true
 			}
+			if s != "timeout" && s != "syntax" && s != "exit" {
+				c11SetMode(p, []string{"", "", "", "source", "preload"}[i%5])
+			}
 			add(p)
 		}
 	}
 	for _, p := range c11Corpus(len(progs)) {
+		add(p)
+	}
+	for _, p := range c11CaseCorpus(len(progs)) {
 		add(p)
 	}
 	nLong := 40
@@ -799,6 +895,7 @@ func runC11(seed int64, tier string, out string) {
 			s = "readonly-signal"
 		}
 		p := c11Gen(r, nPlain+i, s)
+		c11SetMode(p, []string{"", "preload", "source"}[i%3])
 		p.RootDir = sc.Path(fmt.Sprintf("s%d", i))
 		_ = os.MkdirAll(p.RootDir, 0755)
 		sprogs = append(sprogs, p)
@@ -1041,7 +1138,9 @@ func runC11(seed int64, tier string, out string) {
 		if p.Fault && p.Inject != "" {
 			ending = "failing " + strings.SplitN(p.Inject, ":", 2)[0]
 		}
-		c := map[string]interface{}{"scenario": ending, "program": p.text(), "args": p.Args, "competing_holder_files": p.Foreign,
+		delivery := map[string]string{"": "command line", "source": "--source FILE", "preload": "./csvqrc preload file + command line 'SELECT 1;'"}[p.Mode]
+		meta.Distribution["delivery: "+delivery]++
+		c := map[string]interface{}{"scenario": ending, "program": p.text(), "delivery": delivery, "args": p.Args, "competing_holder_files": p.Foreign,
 			"inject": p.Inject, "calls_made_to_fail": o.Trace.Injected, "actions": m.Show, "observed_calls": showOps(o.Ops), "directory_before": o.S0.show(),
 			"directory_found": o.Snap.show(), "exit": o.Res.Code, "stderr": o.Res.Stderr[:minInt(200, len(o.Res.Stderr))],
 			"data_files_bytes_and_mtimes_unchanged": o.Same}
